@@ -245,6 +245,10 @@ func (smf *SMFailed) UnmarshalXML(d *xml.Decoder, start xml.StartElement) error 
 				ise := InternalServerError{}
 				err = d.DecodeElement(&ise, &tt)
 				smf.StreamErrorGroup = &ise
+			case "item-not-found":
+				inf := ItemNotFound{}
+				err = d.DecodeElement(&inf, &tt)
+				smf.StreamErrorGroup = &inf
 			case "invalid-from":
 				ifrm := InvalidForm{}
 				err = d.DecodeElement(&ifrm, &tt)
